@@ -1,6 +1,6 @@
 (* Correspondence cases and output checkers for the pairwise aligners. *)
-From Coq Require Import QArith ZArith List Bool Arith.
-From LV Require Import Common.Cases Align.DP Align.Calign.
+From Coq Require Import QArith Qabs ZArith List Bool Arith.
+From LV Require Import Common.Cases Align.DP Align.Calign Align.LibScore.
 Import ListNotations.
 
 Definition oz_eqb : option Z -> option Z -> bool := option_eqb Z.eqb.
@@ -44,6 +44,48 @@ Definition model_of (c : align_case) : result :=
   | _ => talign (seqA (ac_in c)) (seqB (ac_in c)) (ac_gop c) (scale (ac_in c)) (scorer (ac_in c)) (ac_mode c)
   end.
 
+(* the parameters the mode function finally runs with *)
+Definition eff_in (c : align_case) : cin :=
+  match ac_fn c with
+  | 0%nat => ac_in c
+  | 1%nat => with_gop (ac_in c) (ac_gop c)
+  | _ => talign_in (seqA (ac_in c)) (seqB (ac_in c)) (ac_gop c) (scale (ac_in c)) (scorer (ac_in c))
+  end.
+Definition eff_sec (c : align_case) : bool :=
+  match ac_fn c with
+  | 0%nat => ac_sec c
+  | 1%nat => any_restricted (ac_in c)
+  | _ => false
+  end.
+
+Definition oq_eqb (x y : option Q) : bool :=
+  match x, y with Some a, Some b => Qeq_bool a b | None, None => true | _, _ => false end.
+
+(* C02 on an implementation output: re-scoring the returned columns gives the returned score
+   (f8 = false: the scheme of the property; f8 = true: the faithful scheme with the known
+   finding F8); dialign is excluded by the property *)
+Definition rescore_ok (f8 : bool) (c : align_case) : bool :=
+  match ac_mode c with
+  | Dialign => true
+  | md => oq_eqb (rescore f8 (eff_in c) md (eff_sec c) (ac_out c)) (result_sim (ac_out c))
+  end.
+
+Definition qclose (a b : Q) : bool := Qle_bool (Qabs.Qabs (a - b)) (1 # 1099511627776).
+
+(* the distance returned on request is 1 - 2*sim/(self(A)+self(B)) of the returned similarity *)
+Definition dist_ok (c : align_case) : bool :=
+  match ac_dist c, result_sim (ac_out c) with
+  | Some d, Some s =>
+      match ac_fn c with
+      | 1%nat => qclose d (distance (ac_in c) s)
+      | _ => qclose d (1 - (2 # 1) * s / (talign_self (scorer (ac_in c)) (seqA (ac_in c))
+                                          + talign_self (scorer (ac_in c)) (seqB (ac_in c))))
+      end
+  | _, _ => true
+  end.
+
 Definition align_case_code (c : align_case) : nat :=
   bit 0 (result_eqb (model_of c) (ac_out c))
-  + bit 1 (result_validb (seqA (ac_in c)) (seqB (ac_in c)) (ac_out c)).
+  + bit 1 (result_validb (seqA (ac_in c)) (seqB (ac_in c)) (ac_out c))
+  + bit 2 (rescore_ok false c && dist_ok c)
+  + bit 4 (rescore_ok true c).
